@@ -2346,8 +2346,9 @@ class Skeleton:
         if e[0] == "blockexpr": return ("blockexpr", self.block(e[1]))
         if e[0] == "match": return ("match", self.expr(e[1]), [(pats, self.expr(b)) for pats, b in e[2]])
         c = self.canon(e)
-        if c is not None and c in self.sk.get("exprs", {}):
-            self.used.add(c); return ("paren", parse_snippet(self.sk["exprs"][c], "expr", self.fn["name"]))
+        key, rep = self.lookup("exprs", c)
+        if key is not None:
+            self.used.add(key); return ("paren", parse_snippet(rep, "expr", self.fn["name"]))
         if e[0] in ("num", "bool", "float", "path", "panic"): return e
         return tuple(self.expr(x) if isinstance(x, tuple) else [self.expr(y) if isinstance(y, tuple) else y for y in x] if isinstance(x, list) else x for x in e)
 
@@ -2366,12 +2367,13 @@ class Skeleton:
                 out.append(("let", s[1], s[2], s[3], self.expr(s[4]), s[5])); continue
             if s[0] in ("expr", "assign"):
                 c = self.canon(strip_paren(s[1])) if s[0] == "expr" else self.canon(s)
-                if c is not None and c in self.sk.get("effects", {}):
-                    self.used.add(c); out += parse_snippet(self.sk["effects"][c], "stmts", self.fn["name"]); continue
+                key, rep = self.lookup("effects", c)
+                if key is not None:
+                    self.used.add(key); out += parse_snippet(rep, "stmts", self.fn["name"]); continue
             if s[0] == "for" and isinstance(s[1], str):                      # phase 4g: a `for` loop the table declares to be a pure data effect
-                c = self.for_key(s)
-                if c is not None and c in self.sk.get("effects", {}):
-                    self.used.add(c); out += parse_snippet(self.sk["effects"][c], "stmts", self.fn["name"]); continue
+                key, rep = self.lookup("effects", self.for_key(s))
+                if key is not None:
+                    self.used.add(key); out += parse_snippet(rep, "stmts", self.fn["name"]); continue
             if s[0] == "unsafe" and "unsafe" in self.sk.get("effects", {}):      # phase 4g: an `unsafe { .. }` block the table declares to be a pure data effect
                 self.used.add("unsafe"); out += parse_snippet(self.sk["effects"]["unsafe"], "stmts", self.fn["name"]); continue
             if s[0] == "expr" and strip_paren(s[1])[0] == "match" and self.sk.get("match_stmt"):      # phase 4g: `match` in statement / tail position
@@ -2392,6 +2394,21 @@ class Skeleton:
             else: out.append(s)
         self.env = saved
         return (out, newtail)
+
+    def lookup(self, table, c):
+        """phase 4g: table entry for the canonical text `c`: the exact key, else a key with `$name` wildcards (each stands for ONE identifier - an
+        ordinary local of the function, so that renaming it changes nothing); returns (key, replacement with the wildcards substituted)"""
+        tab = self.sk.get(table, {})
+        if c is None: return None, None
+        if c in tab: return c, tab[c]
+        for key, rep in tab.items():
+            if "$" not in key: continue
+            rx = re.sub(r"\\\$(\w+)", lambda m: "(?P<%s>[A-Za-z_][A-Za-z0-9_]*)" % m.group(1), re.escape(key))
+            m = re.fullmatch(rx, c)
+            if m:
+                for n, v in m.groupdict().items(): rep = rep.replace("$" + n, v)
+                return key, rep
+        return None, None
 
     def for_key(self, s):
         """canonical header `for v in lo..hi` of a `for` statement (None if the range is not canonical)"""
@@ -3531,7 +3548,7 @@ SK_DROP_NEXT = {
               "Self::is_scale_within_bounds(encrypted.scale(), &%s.next_context_data().unwrap())" % CTXE: "ok_next",
               "Self::is_scale_within_bounds(encrypted.scale(), &%s)" % CTXE: "ok_cur"},
     "effects": {"destination.resize(&self.context, %s.next_context_data().unwrap().parms_id(), encrypted.size())" % CTXE: "",
-                "for i in 0..encrypted.size()": "",
+                "for $i in 0..encrypted.size()": "",
                 "destination.set_is_ntt_form(encrypted.is_ntt_form())": "", "destination.set_scale(encrypted.scale())": "",
                 "destination.set_correction_factor(encrypted.correction_factor())": ""},
     "optional": ["Self::is_scale_within_bounds(encrypted.scale(), &%s)" % CTXE,
@@ -3552,7 +3569,7 @@ def _scale_ok(ct, ctx): return "Self::is_scale_within_bounds(%s.scale(), &%s)" %
 SC_OK = "(if sc == 0 { ok_own } else { ok_prod })"
 SC_OK_FIRST = "(if sc == 0 { ok_own_first } else { ok_prod_first })"
 FIRSTCD = "self.context.first_context_data().unwrap()"
-RESIZE_READING = "assert!(!((dest_size < HE_CIPHERTEXT_SIZE_MIN && dest_size != 0) || dest_size > HE_CIPHERTEXT_SIZE_MAX)); size1 = dest_size;"
+RESIZE_READING = "assert!(!(($dest < HE_CIPHERTEXT_SIZE_MIN && $dest != 0) || $dest > HE_CIPHERTEXT_SIZE_MAX)); size1 = $dest;"
 CTXM = "self.get_context_data(encrypted1.parms_id())"
 SK_CKKS_MUL = {
     "sig": "fn ckks_multiply(ntt1: bool, ntt2: bool, size1_in: usize, size2: usize, n: usize, k: usize, ok_own: bool, ok_prod: bool, "
@@ -3562,8 +3579,8 @@ SK_CKKS_MUL = {
     "exprs": {"encrypted1.is_ntt_form()": "ntt1", "encrypted2.is_ntt_form()": "ntt2", CTXM + ".parms().poly_modulus_degree()": "n",
               CTXM + ".parms().coeff_modulus().len()": "k", "encrypted1.size()": "size1", "encrypted2.size()": "size2",
               _scale_ok("encrypted1", CTXM): SC_OK, _scale_ok("encrypted1", FIRSTCD): SC_OK_FIRST},
-    "effects": {"encrypted1.resize(&self.context, %s.parms_id(), dest_size)" % CTXM: RESIZE_READING,
-                "for i in 0..dest_size": "", "encrypted1.data_mut().copy_from_slice(&temp)": "",
+    "effects": {"encrypted1.resize(&self.context, %s.parms_id(), $dest)" % CTXM: RESIZE_READING,
+                "for $i in 0..$n": "", "encrypted1.data_mut().copy_from_slice(&$temp)": "",
                 "encrypted1.set_scale(encrypted1.scale() * encrypted2.scale())": "sc = sc + 1;"},
     "optional": [_scale_ok("encrypted1", CTXM), _scale_ok("encrypted1", FIRSTCD)]}
 CTXS = "self.get_context_data(encrypted.parms_id())"
@@ -3575,7 +3592,7 @@ SK_CKKS_SQ = {
               "encrypted.size()": "size1", _scale_ok("encrypted", CTXS): SC_OK, _scale_ok("encrypted", FIRSTCD): SC_OK_FIRST},
     "effects": {"self.ckks_multiply(encrypted, &encrypted.clone())":
                     "let r = ckks_multiply_sk(ntt, ntt, size1, size1, n, k, ok_own, ok_prod, ok_own_first, ok_prod_first); size1 = r.0; sc = r.1;",
-                "encrypted.resize(&self.context, %s.parms_id(), dest_size)" % CTXS: RESIZE_READING,
+                "encrypted.resize(&self.context, %s.parms_id(), $dest)" % CTXS: RESIZE_READING,
                 "unsafe": "", "encrypted.set_scale(encrypted.scale() * encrypted.scale())": "sc = sc + 1;"},
     "optional": [_scale_ok("encrypted", CTXS), _scale_ok("encrypted", FIRSTCD)]}
 # `multiply_plain_ntt` on the FLAT buffers (data and bookkeeping): `poly_mut(i)` = `&mut data[i*d..(i+1)*d]`, d = degree * moduli.len() (src/text.rs)
@@ -3587,7 +3604,7 @@ SK_MUL_PLAIN_NTT = {
     "handles": [CTXU, CTXU + ".parms()"],
     "exprs": {"plain.is_ntt_form()": "plain_ntt", "encrypted.parms_id() != plain.parms_id()": "!same_parms",
               CTXU + ".parms().coeff_modulus()": "moduli", CTXU + ".parms().poly_modulus_degree()": "n", "encrypted.size()": "size",
-              "encrypted.poly_mut(i)": "&mut d[i * %s..(i + 1) * %s]" % (PLEN, PLEN), "plain.data()": "pd",
+              "encrypted.poly_mut($i)": "&mut d[$i * %s..($i + 1) * %s]" % (PLEN, PLEN), "plain.data()": "pd",
               CTXU + ".parms().scheme()": "scheme", _scale_ok("encrypted", CTXU): SC_OK},
     "effects": {"encrypted.set_scale(encrypted.scale() * plain.scale())": "sc = sc + 1;"}}
 # `multiply_plain_inplace`: the PLAN (which routines run, in which order) for the four representation combinations
